@@ -316,6 +316,42 @@ func harnessAPI(e *Exec, g *G, fn *ssa.Function, args []Value) (Value, bool) {
 		lbl, _ := args[0].(*Term).ConstStr()
 		e.observes = append(e.observes, lbl+"="+valueString(args[1]))
 		return nil, true
+	case "band":
+		return tt.And(args[0].(*Term), args[1].(*Term)), true
+	case "bor":
+		return tt.Or(args[0].(*Term), args[1].(*Term)), true
+	case "bnot":
+		return tt.Not(args[0].(*Term)), true
+	case "bimp":
+		return tt.Implies(args[0].(*Term), args[1].(*Term)), true
+	case "ifStr", "ifInt":
+		return tt.Ite(args[0].(*Term), args[1].(*Term), args[2].(*Term)), true
+	case "trimDash":
+		k := args[0].(*Term)
+		n := tt.StrLen(k)
+		return tt.Ite(tt.PrefixOf(tt.Str("-"), k), tt.SubStr(k, tt.Int(1), tt.ISub(n, tt.Int(1))), k), true
+	case "hasDash":
+		return tt.PrefixOf(tt.Str("-"), args[0].(*Term)), true
+	case "coverIf":
+		lbl, _ := args[1].(*Term).ConstStr()
+		c := args[0].(*Term)
+		if e.covers[lbl] {
+			return nil, true
+		}
+		if b, ok := c.ConstBool(); ok {
+			if b {
+				e.covers[lbl] = true
+			}
+			return nil, true
+		}
+		if mv, ok := e.evalModel(c); ok && mv {
+			e.covers[lbl] = true
+			e.Covered[lbl]++
+		} else if e.check(c) == "sat" {
+			e.covers[lbl] = true
+			e.Covered[lbl]++
+		}
+		return nil, true
 	case "symbolicMode":
 		return tt.True, true
 	case "heldByMe":
@@ -435,7 +471,12 @@ func (e *Exec) vassert(g *G, c *Term, label string) {
 	neg := e.tt.Not(c)
 	r := "sat"
 	if _, ok := c.ConstBool(); !ok {
-		r = e.check(neg)
+		if mv, ok := e.evalModel(c); ok && mv {
+			// model satisfies c: still must ask whether the negation is satisfiable
+			r = e.check(neg)
+		} else {
+			r = e.checkM(neg)
+		}
 	}
 	if r == "sat" {
 		e.recordViolation("assert", label, "assertion failed: "+label, neg)
